@@ -264,7 +264,7 @@ impl Writer {
         });
         let mut w = match made {
             Ok(Ok(w)) => w,
-            Ok(Err(e)) => { tr.reported.push(format!("constructor: {}", e)); let f = read_file(&session); finish(session, stats); if self.real != RealMode::DevFull { let _ = std::fs::remove_file(&path); } return Ok((f, tr)); },
+            Ok(Err(e)) => { tr.reported.push(format!("constructor: {}", e)); let f = read_file(&session); finish(session, stats); if self.real == RealMode::Plain || BYPASSED.with(|b| b.replace(false)) { let _ = std::fs::remove_file(&path); } return Ok((f, tr)); },
             Err(p) => { finish(session, stats); return Err(v("constructor-panic", site, p)); },
         };
 
@@ -363,8 +363,9 @@ impl Writer {
         let file = read_file(&session);
         if let Some(s) = &session { if s.open_handles() != 0 { let n = s.open_handles(); finish(session, stats); return Err(v("handle-leak", site, format!("{} file handles still open after drop", n))); } }
         finish(session, stats);
-        if self.real != RealMode::DevFull { let _ = std::fs::remove_file(&path); }
-        if BYPASSED.with(|b| b.replace(false)) { stats.probe("file seam bypassed: the code under test opened the real file system directly"); }
+        let bypassed = BYPASSED.with(|b| b.replace(false));
+        if self.real == RealMode::Plain || bypassed { let _ = std::fs::remove_file(&path); }
+        if bypassed { stats.probe("file seam bypassed: the code under test opened the real file system directly"); }
         Ok((file, tr))
     }
 
